@@ -12,7 +12,8 @@ package yaml
 //@ func (y *Yaml) String() (string, error)
 //@   requires y != nil
 //@   ensures [C12:string-scalars-only] (result1 == nil) == (deref(y).data != nil && deref(deref(y).data).Kind == 8 && deref(deref(y).data).Tag == "!!str")
-//@   ensures [C12:value] result1 == nil ==> result0 == deref(deref(y).data).Value
+//@   verify [C15]
+//@   ensures [C12:value,C15] result1 == nil ==> result0 == deref(deref(y).data).Value
 //@   ensures [C12:empty-on-error] result1 != nil ==> result0 == ""
 
 //@ func (y *Yaml) Get(key any) *Yaml
